@@ -1,9 +1,10 @@
 (* C06 — incremental update is sound. Theorems about the path analysis of the code generator
    (Model/ExprGen.v: gen_core / prepare, the structure the guard text is printed from) under the
-   denotation of Model/Upt.v. Scope: bindings outside wx:for / slot scopes whose expression is in
-   the fragment `frag` (data fields, member and index access, literals, unary / binary operators
-   including ??, conditionals). The remaining expression forms (calls, object / array literals,
-   scope variables), the tag-level protocol (if / for / template / slot nodes, list diffing) are
+   denotation of Model/Upt.v. Scope: bindings whose expression is in the fragment `frag` (data
+   fields, scope variables such as for items / indices / slot values / script modules, member and
+   index access, literals, unary / binary operators including ??, conditionals); a scope variable
+   is assumed to come with an update-path variable that covers its change (that is the tag-level
+   protocol's side). The remaining expression forms (calls, object / array literals), the tag-level protocol (if / for / template / slot nodes, list diffing) are
    decided by the behavioural correspondence only; see DESIGN.md. *)
 From GE Require Import Model.Upt Proofs.UptProofs.
 Import ListNotations.
@@ -12,13 +13,14 @@ Import ListNotations.
    variables hold their values under the new data, and the emitted guard is false, then the
    binding evaluates to the same value under old and new data: skipping it keeps nothing stale. *)
 Theorem C06_guard_sound :
-  forall (scopes : list scope_var) (lit_str : str -> str) (root : str -> upt) (hv : str -> option val)
-         (ev0 ev1 : env),
+  forall (scopes : list scope_var) (lit_str : str -> str) (sval : str -> upt) (root : str -> upt)
+         (hv : str -> option val) (ev0 ev1 : env),
   covers (UNode root) (Some (e_data ev0)) (Some (e_data ev1)) ->
+  (forall i, covers (scope_tree scopes sval i) (Some (nth i (e_scopes ev0) VUndef)) (Some (nth i (e_scopes ev1) VUndef))) ->
   forall e n, frag e ->
   let '(st, v, r) := prepare scopes lit_str e (mk_gst n) in
   hv_ok (hoists st) hv ev1 ->
-  guard_den root hv r = false ->
+  guard_den scopes sval root hv r = false ->
   eval ev0 e = eval ev1 e.
 Proof. exact guard_sound. Qed.
 Print Assumptions C06_guard_sound.
@@ -26,15 +28,16 @@ Print Assumptions C06_guard_sound.
 (* the invariant behind it, for every sub-expression: the tree found at the analysed path
    relates the old and the new value *)
 Theorem C06_path_relates_values :
-  forall scopes lit_str root hv ev0 ev1,
+  forall scopes lit_str sval root hv ev0 ev1,
   covers (UNode root) (Some (e_data ev0)) (Some (e_data ev1)) ->
+  (forall i, covers (scope_tree scopes sval i) (Some (nth i (e_scopes ev0) VUndef)) (Some (nth i (e_scopes ev1) VUndef))) ->
   forall e, frag e -> forall st,
   let r := gen_core scopes lit_str e st in
   hv_ok (hoists (fst r)) hv ev1 ->
-  covers (upres root hv (PRes (g_pas (snd r)) (g_calc (snd r)))) (eval ev0 e) (eval ev1 e).
+  covers (upres scopes sval root hv (PRes (g_pas (snd r)) (g_calc (snd r)))) (eval ev0 e) (eval ev1 e).
 Proof.
-  intros scopes lit_str root hv ev0 ev1 Hc e Hf st. cbv zeta.
-  destruct (gen_sound scopes lit_str root hv ev0 ev1 Hc e Hf st) as [_ H]. exact H.
+  intros scopes lit_str sval root hv ev0 ev1 Hc Hs e Hf st. cbv zeta.
+  destruct (gen_sound scopes lit_str sval root hv ev0 ev1 Hc Hs e Hf st) as [_ H]. exact H.
 Qed.
 Print Assumptions C06_path_relates_values.
 
@@ -65,9 +68,9 @@ Module Witness.
     end.
   Example hoisted_two : length (hoists (fst (fst prep))) = 2%nat.
   Proof. reflexivity. Qed.
-  Example guard_false_when_unread : guard_den u_unread (hv_of d1_unread) (snd prep) = false.
+  Example guard_false_when_unread : guard_den [] (fun _ => UNone) u_unread (hv_of d1_unread) (snd prep) = false.
   Proof. vm_compute. reflexivity. Qed.
-  Example guard_true_when_read : guard_den u_read (hv_of d1_read) (snd prep) = true.
+  Example guard_true_when_read : guard_den [] (fun _ => UNone) u_read (hv_of d1_read) (snd prep) = true.
   Proof. vm_compute. reflexivity. Qed.
   Example value_changes_when_read :
     eval {| e_data := d0; e_scopes := [] |} e <> eval {| e_data := d1_read; e_scopes := [] |} e.
@@ -87,4 +90,18 @@ Module Witness.
   Qed.
   Example frag_e : frag e.
   Proof. repeat constructor. Qed.
+
+  (* a for item: {{ item.a }} under the item's update-path variable *)
+  Definition item_scopes : list scope_var :=
+    [{| sv_var := lit "c"; sv_upt := Some (lit "e"); sv_lv := LvVar (lit "f") true |}].
+  Definition e_item : expr := EMember (EScope 0) (lit "a").
+  Definition prep_item := prepare item_scopes (fun s => s) e_item (mk_gst 0).
+  Definition tree_x (v : str) : upt := if str_eqb v (lit "e") then UNode (of_list [(lit "x", UAll)]) else UNone.
+  Definition tree_a (v : str) : upt := if str_eqb v (lit "e") then UNode (of_list [(lit "a", UAll)]) else UNone.
+  Example item_guard_false_when_other_member_changes :
+    guard_den item_scopes tree_x (fun _ => UNone) (fun _ => None) (snd prep_item) = false.
+  Proof. vm_compute. reflexivity. Qed.
+  Example item_guard_true_when_member_changes :
+    guard_den item_scopes tree_a (fun _ => UNone) (fun _ => None) (snd prep_item) = true.
+  Proof. vm_compute. reflexivity. Qed.
 End Witness.
